@@ -115,6 +115,8 @@ class C12(PropCheck):
             for el in ("absent", "none", "repl"):
                 for form in ("direct", "decorator"):
                     out.append({"k": "customize", "hide": hide, "hide_line": hl, "prune": prune, "elab": el, "form": form})
+                    for prior in ("tbhide", "customize", "register"):
+                        out.append({"k": "customize", "hide": hide, "hide_line": hl, "prune": prune, "elab": el, "form": form, "prior": prior})
         for _ in range(60 if tier == "quick" else 600):
             nops = rng.randint(1, 200 if tier == "thorough" else 60)
             ops = []
@@ -350,6 +352,23 @@ class C12(PropCheck):
 
         def target():
             yield from callee()
+
+        prior = case.get("prior")
+        if prior == "tbhide":
+            def target():            # noqa: F811  (a frame the default hook would hide)
+                __tracebackhide__ = True
+                yield from callee()
+        elif prior == "customize":
+            # an earlier customization of the same code: the later one replaces it entirely
+            stackscope.customize(target, hide=True, hide_line=True, prune=True)
+        elif prior == "register":
+            rep2 = replacement_gen()
+            next(rep2)
+
+            @stackscope.elaborate_frame.register(target)
+            def _earlier(frame, nxt):
+                frame.hide = True
+                return rep2
 
         kwargs: Dict[str, Any] = {"hide": case["hide"], "hide_line": case["hide_line"], "prune": case["prune"]}
         if case["elab"] == "none":
